@@ -209,7 +209,7 @@ def run_case(params, prefix):
 
 
 def cases_for(tier):
-    return [{"spec": s} for s in _exec.catalogue(tier)]
+    return [_exec.case_of(s) for s in _exec.catalogue(tier)]
 
 
 def main(argv=None):
@@ -220,7 +220,8 @@ def main(argv=None):
     cases = cases_for(args.tier)
     bound = 1 if args.tier == "quick" else 2
     return _exec.generic_main(
-        PROP, sys.modules[__name__], "model_checking", cases, bound, {},
+        PROP, sys.modules[__name__], "model_checking", cases, bound,
+        {i: c["bound"] for i, c in enumerate(cases) if "bound" in c},
         rule="catalogue programs x all schedules within the deviation bound; after each execution the token and "
              "provenance tables are read through raw sqlite3 and compared with a per-step-class reference of the "
              "dependee set (exact for all classes except cartesian/loop-termination combinators: soundness + one per "
